@@ -26,8 +26,11 @@ EXTENDS Naturals, Sequences, FiniteSets
 
 \* ---------------------------------------------------------------- tokens, texts
 ColUniverse == {"a", "b", "c", "u"}          \* "u" is never a column: <u> is an unknown placeholder
+\* behave's pseudo-columns: <examples.name> <examples.index> <row.index> <row.id> are substituted like columns in the
+\* outline name, the step names and the tags (not in doc-strings and step tables)
+PseudoCols == <<"examples.name", "examples.index", "row.index", "row.id">>
 Ph(c) == "<" \o c \o ">"
-PhUniverse == {Ph(c) : c \in ColUniverse}
+PhUniverse == {Ph(c) : c \in ColUniverse} \cup {Ph(PseudoCols[i]) : i \in DOMAIN PseudoCols}
 
 RECURSIVE Str(_)
 Str(t) == IF t = <<>> THEN "" ELSE Head(t) \o Str(Tail(t))
@@ -73,13 +76,15 @@ MakeRowTags(tags, cols, cells) ==
         IN (IF ~HasPh(t0) THEN <<t0>> ELSE IF HasPh(t1) THEN <<>> ELSE <<MakeName(t1)>>) \o MakeRowTags(Tail(tags), cols, cells)
 
 \* steps: [name, doc, th, tr]  (doc = <<>>: no doc-string; th = <<>>: no table; tr = rows of cells)
-StepCode(s, cols, cells) ==
-   [name |-> RenderTemplate(s.name, cols, cells),
+\* (xcols, xcells) = the row's columns followed by the pseudo-columns: row items first, then params, as in
+\* render_template(text, row, params); only the step NAME is rendered with params
+StepCode(s, cols, cells, xcols, xcells) ==
+   [name |-> RenderTemplate(s.name, xcols, xcells),
     doc  |-> IF s.doc = <<>> THEN <<>> ELSE RenderTemplate(s.doc, cols, cells),
     th   |-> [j \in DOMAIN s.th |-> SeqRepl(s.th[j], cols, cells, 1)],
     tr   |-> [r \in DOMAIN s.tr |-> [j \in DOMAIN s.tr[r] |-> SeqRepl(s.tr[r][j], cols, cells, 1)]]]
-StepDef(s, cols, cells) ==
-   [name |-> SubstSim(s.name, cols, cells),
+StepDef(s, cols, cells, xcols, xcells) ==
+   [name |-> SubstSim(s.name, xcols, xcells),
     doc  |-> SubstSim(s.doc, cols, cells),
     th   |-> [j \in DOMAIN s.th |-> SubstSim(s.th[j], cols, cells)],
     tr   |-> [r \in DOMAIN s.tr |-> [j \in DOMAIN s.tr[r] |-> SubstSim(s.tr[r][j], cols, cells)]]]
@@ -96,6 +101,10 @@ Annot(schema, name, bi, ri, exname) ==
              [] schema[i] = "{examples.index}" -> <<Dig(bi)>>
              [] OTHER -> <<schema[i]>>])
 
+\* the pseudo-columns of row ri of block bi; exname = the (rendered) name of the examples block
+XCols(cols) == cols \o PseudoCols
+XCells(cells, exname, bi, ri) == cells \o <<exname, <<Dig(bi)>>, <<Dig(ri)>>, <<Dig(bi), ".", Dig(ri)>> >>
+
 \* ---------------------------------------------------------------- outlines
 \* outline = [name, tags, steps, blocks]; block = [name, tags, cols, hline, rows]; row = [cells, line, gap]
 \* gap: what the feature file has between the previous table line and this row: 0 nothing, 1 a "#" comment line,
@@ -109,20 +118,28 @@ TotalRows(o) == Len(Pairs(o))
 \* make_scenario_for as the code does it (token form)
 ScenCode(o, schema, bi, ri) ==
    LET blk == o.blocks[bi]  cols == blk.cols  cells == blk.rows[ri].cells
-   IN [name  |-> Annot(schema, RenderTemplate(o.name, cols, cells), bi, ri, RenderTemplate(blk.name, cols, cells)),
-       tags  |-> MakeRowTags(o.tags, cols, cells) \o blk.tags,
+       \* make_scenario_name: params["examples.name"] = example.name; the examples name is rendered PER ROW from the
+       \* block's own name, written back to params and used for the name, the tags and the step names of this row
+       xcols == XCols(cols)
+       exn   == RenderTemplate(blk.name, xcols, XCells(cells, blk.name, bi, ri))
+       xcells == XCells(cells, exn, bi, ri)
+   IN [name  |-> Annot(schema, RenderTemplate(o.name, xcols, xcells), bi, ri, exn),
+       tags  |-> MakeRowTags(o.tags, xcols, xcells) \o blk.tags,
        line  |-> blk.rows[ri].line,
-       steps |-> [s \in DOMAIN o.steps |-> StepCode(o.steps[s], cols, cells)]]
+       steps |-> [s \in DOMAIN o.steps |-> StepCode(o.steps[s], cols, cells, xcols, xcells)]]
 ExpandCode(o, schema) == LET P == Pairs(o) IN [k \in DOMAIN P |-> ScenCode(o, schema, P[k][1], P[k][2])]
 
 \* what the property demands (tags of ScenDef are the rendered outline tags ++ block tags, see Outline_Trace
 \* for the relation that leaves tags with unknown placeholders open)
 ScenDef(o, schema, bi, ri) ==
    LET blk == o.blocks[bi]  cols == blk.cols  cells == blk.rows[ri].cells
-   IN [name  |-> Annot(schema, SubstSim(o.name, cols, cells), bi, ri, blk.name),
-       tags  |-> [i \in DOMAIN o.tags |-> SubstSim(o.tags[i], cols, cells)] \o blk.tags,
+       xcols == XCols(cols)
+       exn   == SubstSim(blk.name, cols, cells)          \* the block's own name with THIS row's cells
+       xcells == XCells(cells, exn, bi, ri)
+   IN [name  |-> Annot(schema, SubstSim(o.name, xcols, xcells), bi, ri, exn),
+       tags  |-> [i \in DOMAIN o.tags |-> SubstSim(o.tags[i], xcols, xcells)] \o blk.tags,
        line  |-> blk.rows[ri].line,
-       steps |-> [s \in DOMAIN o.steps |-> StepDef(o.steps[s], cols, cells)]]
+       steps |-> [s \in DOMAIN o.steps |-> StepDef(o.steps[s], cols, cells, xcols, xcells)]]
 ExpandDef(o, schema) == LET P == Pairs(o) IN [k \in DOMAIN P |-> ScenDef(o, schema, P[k][1], P[k][2])]
 
 \* ---------------------------------------------------------------- string forms (= what the driver records)
